@@ -11,6 +11,7 @@ import (
 	"os"
 	"sort"
 	"strings"
+	"sync"
 	"time"
 
 	"github.com/pojntfx/stfs/pkg/config"
@@ -225,6 +226,37 @@ type Exec struct {
 	H       map[int]afero.File
 	Sched   *Sched
 	MaxRead int
+	// Shared, if set, holds handles with ids >= SharedBase: several clients
+	// (goroutines) use the same open file
+	Shared *SharedHandles
+}
+
+const SharedBase = 900
+
+type SharedHandles struct {
+	mu sync.Mutex
+	H  map[int]afero.File
+}
+
+func (e *Exec) getHandle(h int) (afero.File, bool) {
+	if e.Shared != nil && h >= SharedBase {
+		e.Shared.mu.Lock()
+		defer e.Shared.mu.Unlock()
+		f, ok := e.Shared.H[h]
+		return f, ok
+	}
+	f, ok := e.H[h]
+	return f, ok
+}
+
+func (e *Exec) dropHandle(h int) {
+	if e.Shared != nil && h >= SharedBase {
+		e.Shared.mu.Lock()
+		delete(e.Shared.H, h)
+		e.Shared.mu.Unlock()
+		return
+	}
+	delete(e.H, h)
 }
 
 func NewExec(fs afero.Fs, s *Sched) *Exec {
@@ -246,7 +278,7 @@ func (e *Exec) CloseAll() {
 func (e *Exec) Do(o Op) (res Res) {
 	fs := e.FS
 	needH := func() (afero.File, bool) {
-		f, ok := e.H[o.H]
+		f, ok := e.getHandle(o.H)
 		if !ok {
 			res = Res{Class: "nohandle"}
 		}
@@ -351,7 +383,7 @@ func (e *Exec) Do(o Op) (res Res) {
 		if !ok {
 			return
 		}
-		delete(e.H, o.H)
+		e.dropHandle(o.H)
 		return mkRes(f.Close())
 	case "h.sync":
 		f, ok := needH()
@@ -482,6 +514,16 @@ func (e *Exec) Do(o Op) (res Res) {
 }
 
 func (e *Exec) putHandle(h int, f afero.File) {
+	if e.Shared != nil && h >= SharedBase {
+		e.Shared.mu.Lock()
+		old, ok := e.Shared.H[h]
+		e.Shared.H[h] = f
+		e.Shared.mu.Unlock()
+		if ok {
+			old.Close()
+		}
+		return
+	}
 	if old, ok := e.H[h]; ok {
 		old.Close()
 	}
